@@ -23,7 +23,11 @@ def cmpfail_step(P, ks, a):
     is_set = kind in ('TreeSet', 'Set')
     grp = P['group']
     nops = {'range': 3}.get(grp) or NOPS[('set' if is_set else 'map', grp)]
-    op = common.choose(a['op'], nops)
+    if grp == 'read':
+        # the calls of the read group that compare keys: get/[]/in/has_key/setdefault-free lookups, isdisjoint
+        op = (0, 1, 6)[common.choose(a['op'], 3)] if is_set else common.choose(a['op'], 5)
+    else:
+        op = common.choose(a['op'], nops)
     with common.untraced():
         _cmpfail_step(P, ks, a, op, a['f'])
 
